@@ -9,6 +9,7 @@ from ..core import SKIP
 
 ID = "C19"
 PARALLEL = 16
+CASE_TIMEOUT_S = 60
 RULE = ("exhaustive: every table type (every bnpdataclass of bionumpy.datatypes whose field types are supported + dynamically made "
         "classes covering string, identifier, int, float, bool, Optional, list-of-int, encoded, strand and nested-table columns) "
         "x 0..3 rows x every single operation of a fixed list (int-list / negative / slice / mask indexing, concatenate on either "
@@ -129,6 +130,8 @@ def _forms():
         "nd_float": lambda: np.array([1.5, 2.0]),
         "nd_bool": lambda: np.array([True, False]),
         "nd_str": lambda: np.array(["ACG", "T"]),
+        "nd_obj_int": lambda: np.array([1, 2], dtype=object),
+        "series_obj_int": lambda: pd.Series([1, 2], dtype=object),
         "encoded_ragged": lambda: bnp.as_encoded_array(["ACG", "T"]),
         "dna_ragged": lambda: bnp.as_encoded_array(["ACG", "T"], bnp.DNAEncoding),
         "string_array": lambda: as_string_array(["ACG", "T"]),
@@ -143,7 +146,7 @@ def _forms():
 
 
 FORM_ORDER = ["list_str", "list_int", "list_float", "list_bool", "list_none", "nd_int", "nd_float", "nd_bool", "nd_str",
-              "encoded_ragged", "dna_ragged", "string_array", "ragged_int", "list_list_int", "table", "list_entries",
+              "nd_obj_int", "series_obj_int", "encoded_ragged", "dna_ragged", "string_array", "ragged_int", "list_list_int", "table", "list_entries",
               "series_str", "series_int", "strand_str"]
 
 # the declared type's column classes (what "converted to its declared type" means for each field kind)
@@ -380,6 +383,8 @@ def oracle(c):
                 return SKIP          # ragged tuples: outside "rectangular input"
             return {"err": "raise"}
         return {"rows": c["rows"], "width": c["width"]}
+    if c["op"] == "sort_long":
+        return {"first": "n%d" % (c["rows"] - 2), "last": "n%d" % (c["rows"] - 1), "n": c["rows"]}
     if c["op"] == "dict":
         keys, cnt = [], [0]
 
@@ -559,6 +564,8 @@ def cases(tier, rng):
     for k in KIND_ORDER:
         for f in FORM_ORDER:
             yield {"op": "construct_cell", "type": "D_all", "kind": k, "form": f}
+    # 1b'. sort_by a text column with one very long row (cost must follow the amount of text, not rows x longest row)
+    yield {"op": "sort_long", "type": "D_all", "rows": 2000, "long": 500000}
     # 1c. nested tables <-> flat dicts with dotted keys (todict / from_dict / pandas), nesting depth <= 3,
     #     names reused across levels, prefixes of each other
     L = "leaf"
@@ -707,6 +714,17 @@ def impl(c):
             return {"rows": _rows_tolist(t, kinds), "width": len(dataclasses.fields(t))}
         except Exception as e:
             return {"err": "raise", "exc": type(e).__name__}
+    if c["op"] == "sort_long":
+        from bionumpy.datatypes import SequenceEntry
+        n = c["rows"]
+        # rows 0..n-3 hold "CC…", row n-2 holds "A" (sorts first), row n-1 the long "T…" row (sorts last)
+        seqs = ["C" * (5 + i % 3) for i in range(n - 2)] + ["A", "T" * c["long"]]
+        try:
+            t = SequenceEntry(["n%d" % i for i in range(n)], seqs).sort_by("sequence")
+            names = t.name.tolist()
+            return {"first": names[0], "last": names[-1], "n": len(t)}
+        except Exception as e:
+            return {"err": "raise", "exc": type(e).__name__}
     if c["op"] == "dict":
         from bionumpy.bnpdataclass import make_dataclass
         counter = [0]
@@ -782,6 +800,8 @@ def _same(c, got, ref):
 
 
 def agree(c, got, exp):
+    if c["op"] == "sort_long":
+        return core.canon(got) == core.canon(exp)
     if c["op"] == "dict":
         return core.canon(got) == core.canon(exp)
     if c["op"] == "construct_cell":
@@ -836,6 +856,8 @@ def model_request(c):
 def finding_key(c, got, exp):
     m = _mods()
     kinds = m["classes"][c["type"]][1]
+    if c["op"] == "sort_long":
+        return "sort_by:long-row"
     if c["op"] == "dict":
         return "dict:" + ("raises-" + str(got.get("exc")) if isinstance(got, dict) and "err" in got else "nested-roundtrip")
     if c["op"] == "construct_cell":
